@@ -83,5 +83,6 @@ def validate(trace_spec, traces, constants_cfg="", *, name=None, timeout=900, ch
                 v.info.append(tuple(p[2:]))
     stalled = [i for i, v in enumerate(verdicts) if not v.end]
     if stalled:
-        raise tlc.MachineryError("%d trace(s) were not consumed to the end by %s (malformed event?), first: %s" % (len(stalled), trace_spec, json.dumps(traces[stalled[0]])[:1500]))
+        tails = [res.out[-1500:] for _, res in results if "rror" in res.out[-4000:]][:1]
+        raise tlc.MachineryError("%d trace(s) were not consumed to the end by %s (malformed event?), first: %s\n%s" % (len(stalled), trace_spec, json.dumps(traces[stalled[0]])[:1500], "\n".join(tails)))
     return verdicts, states
